@@ -927,7 +927,21 @@ impl traits::HasDataType for Raw {
         &S
     }
 }
-impl traits::MetricValue for Raw {}
+impl traits::MetricValue for Raw {
+    /// a user type may describe itself differently in a birth and in a data message: `Raw` carries
+    /// metadata only in births, so a data metric of a `raw` token without explicit metadata has none
+    /// (`publish_metadata` keeps its default)
+    fn birth_metadata(&self) -> Option<srad_types::MetaData> {
+        Some(srad_types::MetaData {
+            description: Some("birth-only metadata".into()),
+            content_type: Some("application/x-raw".into()),
+            size: None,
+            md5: None,
+            file_name: None,
+            file_type: None,
+        })
+    }
+}
 
 macro_rules! tok_types {
     ($m:ident) => {
